@@ -62,7 +62,7 @@ def census(F):
 	"""{(file, fn tail, callee key): sorted tuple of condition counts over its call sites}, plus where"""
 	if F.dir in _C:
 		return _C[F.dir]
-	cache = os.path.join(F.dir, 'cache_guards2.json')
+	cache = os.path.join(F.dir, 'cache_guards3.json')
 	if os.path.exists(cache):
 		try:
 			d = json.load(open(cache))
@@ -108,8 +108,12 @@ def census(F):
 		if not sites:
 			continue
 		cc = cond_counts(fu)
+		# sites inside closures / async blocks are attributed to the enclosing function but counted within the closure's own CFG: they are keyed
+		# apart, so that moving a call between a closure and the function body (`iter.for_each(|x| f(x))` <-> `for x in iter { f(x) }`) changes the
+		# number of sites of both keys and is not judged
+		inclo = '@closure' if '{closure' in n else ''
 		for b, key in sites:
-			k = (fl, tail, key)
+			k = (fl, tail, key + inclo)
 			tab[k].append(cc.get(b, 0))
 			where.setdefault(k, (n, fu.line_of(b)))
 	out = ({k: tuple(sorted(v)) for k, v in tab.items()}, where, known)
